@@ -68,6 +68,9 @@ func ListRepos(stores context2.Stores, opts ...Option) ([]model.RepoDescriptor, 
 
 	workers.Wait()
 
+	// batches are sorted individually and come in key order: sort again to get the same order whatever the batch size
+	sort.Sort(repos)
+
 	return repos, err // we may have some batches resolved before the error occurred
 }
 
